@@ -151,6 +151,7 @@ func (p *Program) genOnce(fn *ssa.Function, key string, opts GenOpts, pre map[st
 		name = "locks:" + key
 	}
 	vc = NewVC(p, mode, name)
+	vc.noQuant = opts.LockOnly
 	// pre-populate heap keys (so that havoc points know every key)
 	var ks []string
 	for k := range pre {
@@ -223,8 +224,22 @@ func (p *Program) genOnce(fn *ssa.Function, key string, opts GenOpts, pre map[st
 	if opts.LockOnly && opts.TC != nil && opts.TC.Lock != "" && fr.recvRef != "" {
 		S := args[0].T.Underlying().(*types.Pointer).Elem()
 		fr.lockAddr = vc.emb(S, opts.TC.Lock, fr.recvRef)
-		// entry: the caller does not hold the lock of this collection (exported method called from outside)
-		vc.axiom(notT(vc.heldTerm(st, fr.lockAddr)))
+		for _, f := range structFields(S) {
+			if f.Name() == opts.TC.Lock && f.Type().String() == "*sync.Cond" {
+				// the lock is the Locker of a condition variable: this.lock.L
+				condRef := vc.readField(st, S, f, fr.recvRef).C[0]
+				if cs, ok := f.Type().Underlying().(*types.Pointer).Elem().Underlying().(*types.Struct); ok {
+					for i := 0; i < cs.NumFields(); i++ {
+						if cs.Field(i).Name() == "L" {
+							lv := vc.readField(st, f.Type().Underlying().(*types.Pointer).Elem(), cs.Field(i), condRef)
+							fr.lockAddr = vc.define("lockaddr", "Int", lv.C[1])
+						}
+					}
+				}
+			}
+		}
+		// entry: an exported method is called from outside the collection code: this goroutine holds none of the collection locks
+		vc.axiom("(= " + vc.hget(st, "held", "(Array Int Bool)") + " ((as const (Array Int Bool)) false))")
 	}
 	fr.old = st.Clone()
 	entry := st.Clone()
